@@ -1,6 +1,7 @@
 SPECIFICATION FSpec
 CONSTANTS
   Replica = {"A"}
+  Remote = {"origin"}
   NBug = 1
   Author = {"u1"}
   MaxHop = 1000000
